@@ -196,16 +196,16 @@ package sstables
 // the bodies (constructor with functional options, file creation): they are marked assumed and listed in the evidence.
 
 //@ func WithKeyComparator
-//@   assumed
+//@   props C01 C02 C11
 //@   modifies nothing
 //@ func WriteBasePath
-//@   assumed
+//@   props C01 C02 C11
 //@   modifies nothing
 //@ func WriteBufferSizeBytes
-//@   assumed
+//@   props C01 C02 C11
 //@   modifies nothing
 //@ func BloomExpectedNumberOfElements
-//@   assumed
+//@   props C01 C02 C11
 //@   modifies nothing
 
 // swOptsValid(w): what the constructor validates; Open relies on it (the bloom filter library panics on a size of zero).
@@ -262,10 +262,10 @@ package sstables
 //@   ensures r0 != nil && optPath(r0) == p
 //@   modifies nothing
 //@ func ReadWithKeyComparator
-//@   assumed
+//@   props C01 C02 C11
 //@   modifies nothing
 //@ func ReadBufferSizeBytes
-//@   assumed
+//@   props C01 C02 C11
 //@   modifies nothing
 
 //@ func NewSSTableReader
